@@ -51,7 +51,7 @@ class FakeCore(object):
   pass
 
 
-def setup(links, n_switches, host_ports=(101, 102)):
+def setup(links, n_switches, host_ports=(101, 102), extra_hosts=True):
   """links: list of (s1, p1, s2, p2) directed.  returns (spanning_tree module, discovery stub, cons)"""
   import pox.openflow.spanning_tree as stm
   import pox.openflow.discovery as dm
@@ -62,6 +62,15 @@ def setup(links, n_switches, host_ports=(101, 102)):
   for s1, p1, s2, p2 in links:
     ports[s1].add(p1)
     ports[s2].add(p2)
+  if extra_hosts:
+    # host ports numbered like the FAR end of a link of the same switch (a mix-up of the two ends of a link in the
+    # edge-port test only shows when such numbers coincide)
+    linked = set((s1, p1) for (s1, p1, s2, p2) in links) | set((s2, p2) for (s1, p1, s2, p2) in links)
+    for s1, p1, s2, p2 in links:
+      if (s2, p1) not in linked:
+        ports[s2].add(p1)
+      if (s1, p2) not in linked:
+        ports[s1].add(p2)
   cons = dict((s, FakeCon(s, sorted(ps))) for s, ps in ports.items())
   core = FakeCore()
   core.openflow_discovery = disc
@@ -287,13 +296,32 @@ def check_probe(dpid, port, rx_dpid, rx_port):
   dm.time.time = _t.time
   if disc.adjacency or events[1:] != [("LinkEvent", False, want)]:
     return "expiry: adjacency %s events %s" % (list(disc.adjacency.keys()), events[1:])
+  # two links time out in the same sweep: each is withdrawn exactly once
+  disc._handle_openflow_PacketIn(ev)
+  ev2 = FakeEvent()
+  ev2.parsed = ev.parsed
+  ev2.dpid = rx_dpid
+  ev2.port = rx_port + 1
+  ev2.connection = None
+  ev2.ofp = None
+  disc._handle_openflow_PacketIn(ev2)
+  want2 = dm.Discovery.Link(dpid, port, rx_dpid, rx_port + 1)
+  n0 = len(events)
+  t2 = max(disc.adjacency.values())
+  dm.time.time = lambda: t2 + disc._link_timeout + 0.001
+  disc._expire_links()
+  dm.time.time = _t.time
+  removed = [e for e in events[n0:] if e[1] is False]
+  if disc.adjacency or sorted(map(tuple, [e[2] for e in removed])) != sorted([tuple(want), tuple(want2)]) or len(events) - n0 != 2:
+    return "two links expiring together: adjacency %s, events %s" % (list(disc.adjacency.keys()), events[n0:])
   # re-discovered, then the originating switch disconnects
   disc._handle_openflow_PacketIn(ev)
   down = FakeEvent()
   down.dpid = dpid
   disc._handle_openflow_ConnectionDown(down)
-  if disc.adjacency or [e[:2] for e in events[2:]] != [("LinkEvent", True), ("LinkEvent", False)]:
-    return "switch disconnect: adjacency %s events %s" % (list(disc.adjacency.keys()), events[2:])
+  tail = events[-2:]
+  if disc.adjacency or [e[:2] for e in tail] != [("LinkEvent", True), ("LinkEvent", False)]:
+    return "switch disconnect: adjacency %s events %s" % (list(disc.adjacency.keys()), tail)
   return None
 
 
@@ -309,7 +337,10 @@ def probe_round_trip(tier, seed):
       dpids.add(v << (8 * pos))
   for _ in range(40 if tier == "quick" else 2000):
     dpids.add(rng.getrandbits(64))
-  ports = [1, 9, 10, 255, 256, 0xfeff, 0xff00] + [rng.randrange(1, 0xff00) for _ in range(5 if tier == "quick" else 50)]
+  # incl. ports whose 16-bit big-endian bytes are both ASCII digits (0x3031 = b"01") and two-digit decimals: the decoder
+  # tries "decimal text" before "two raw bytes"
+  ports = [1, 9, 10, 12, 99, 100, 255, 256, 0x3031, 0x3939, 0x3030, 0x3130, 12594, 0xfeff, 0xff00] \
+    + [rng.randrange(1, 0xff00) for _ in range(5 if tier == "quick" else 50)]
   for d in sorted(dpids):
     for p in ports:
       yield ("dpid=%x port=%d" % (d, p), lambda d=d, p=p: check_probe(d, p, (d + 1) & ((1 << 64) - 1), 7))
